@@ -73,7 +73,13 @@ def gen_backlog(rng, k):
         # none of the queued connects may be handed out (or complete) afterwards
         rb = nh()
         ops += ["expires_after 98 %d" % (t + 500000000), "async_wait 98 %d" % rb]
-        H[rb] = ["tcp_close 1", "tcp_open 1 1", "tcp_bind 1 0 0 %d" % r.choice([1444, port]), "listen 1 10"]
+        nport = r.choice([1444, port])
+        relisten = r.random() < 0.5
+        H[rb] = ["tcp_close 1", "tcp_open 1 1", "tcp_bind 1 0 0 %d" % nport] + (["listen 1 10"] if relisten else [])
+        # somebody dials the new endpoint afterwards: accepted only if listen() was called again
+        lc = nh()
+        ops += ["tcp_new 39 2", "expires_after 97 %d" % (t + 600000000), "async_wait 97 %d" % lc]
+        H[lc] = ["tcp_connect 39 0 %d %d %d" % (A1, nport, nh())]
     ops += ["expires_after 99 %d" % (t + r.choice([2000000000, 700000000])), "async_wait 99 %d" % first]
     L += ["M " + o for o in ops]
     for h in sorted(H):
@@ -146,12 +152,13 @@ def oracle(lines, trace):
                 if issue[cx] >= issue[cy] + 50000000:
                     fails.append(("c07/accept-order", "accept #%d returned the client that connected at t=%d, accept #%d the one that connected at t=%d: not in arrival order" % (got[x][0] - 40, issue[cx], got[y][0] - 40, issue[cy])))
         fails = fails[:1] if fails and fails[0][0] == "c07/accept-order" else fails
-    # after acceptor::close() a later connect must be refused
+    # after acceptor::close() a later connect must be refused - until listen() is called again
     closes = [e for e in ev if e["op"][0] in ("acc_close0",) or (e["op"][0] == "tcp_close" and e["op"][1] == "1")]
+    relistens = [e["t"] for e in ev if e["op"][0] == "listen" and e["op"][1] == "1" and e["ret"] and e["ret"][0] == 0]
     if closes:
         tc = min(e["t"] for e in closes)
         for e in ev:
-            if e["op"][0] == "tcp_connect" and e["t"] > tc:
+            if e["op"][0] == "tcp_connect" and e["t"] > tc and not any(tc <= tl <= e["t"] for tl in relistens):
                 h = int(e["op"][5])
                 if h in comp and comp[h][1][0] == 0:
                     fails.append(("c07/close-still-listening", "a connect issued after the acceptor was closed succeeded"))
